@@ -19,14 +19,14 @@ def gather(ctx, ns_min=0, tz="UTC", scale=1.0):
     return recs, errors
 
 
-def check(ctx, cfg, recs, prefix):
+def check(ctx, cfg, recs, prefix, zone=None):
     fails = ctx.validate("DrawTrace", cfg, recs, per_shard=120, heap="3g")
     for idx, inv in fails:
         rec = recs[idx]
         if not inv.startswith(prefix):
             raise core.MachineryError("spec-side invariant %s failed" % inv)
         s = rec["svg"]
-        ctx.report("%s dir=%s scale=%s" % (inv, s["dir"], s["scale"]), "n=%d layers=%d" % (s["n"], 1 + max(n["layer"] for n in s["nodes"])),
+        ctx.report("%s dir=%s scale=%s%s" % (inv, s["dir"], s["scale"], "" if zone is None else " zone=" + zone), "n=%d layers=%d" % (s["n"], 1 + max(n["layer"] for n in s["nodes"])),
                    {"record": rec})
     return fails
 
